@@ -21,7 +21,8 @@ SPEC = {
     ],
     "classes": {1: "upload-marker-not-a-number", 2: "upload-index-out-of-range", 3: "parser-stack-overflow-deep-nesting"},
     "n_quick": 300, "n_thorough": 6000,
-    "level": "partial",
+    "level": "other",
+    "explanation": "partial by design: Coq proofs (no panic outside the stated conditions, for all inputs) for the modelled decoders with unwrap/index/arithmetic on client data; every other entry point and the parser's stack depth are covered by a crash-oracle exploration only (catch_unwind, child process with time budget)",
     "what_violation": "a client-controlled input makes the library panic / overflow the stack / stop answering",
     "rule": ("modelled decoders: Upload::parse and Schema::execute of mutations with Upload arguments over marker strings "
              "(prefix + boundary / malformed / huge suffixes, near-prefixes, non-strings; 0-3 attached files; variable, literal, "
@@ -50,7 +51,7 @@ SPEC = {
 }
 
 MANIFEST = {
-    "category": "partial",
+    "category": "other",
     "technique": ("Coq proof for the modelled decoders (outcome Ok|Err|Panic models of every unwrap/index/arithmetic site on client data; "
                   "panic-freedom for all inputs outside a computable known class; grammar-guarded unwraps shown unreachable) + "
                   "constants/escape arms/grammar rules re-read from source on every run + differential correspondence + "
